@@ -78,31 +78,48 @@ Proof.
   rewrite E2. cbn [orb]. apply nth_error_nth'. lia.
 Qed.
 
+(* The proof of gen_clo_call_ok does not follow the shape of the generated
+   body: it evaluates the interpreter on whatever gen_clo_call is, splits on
+   every integer comparison that the evaluation (or the hand-written clo)
+   meets, discharges the two list accesses by py_nth_last / py_nth_in and
+   closes each case by computation or linear arithmetic (min(a, b) = min(b, a)).  So it holds of every
+   equivalent way of writing __call__ that the translator accepts (result
+   variable or early returns, `0 == line_no`, named temporaries, ...), and
+   still fails when the body computes something else. *)
+Ltac clo_ev :=
+  cbn [length Nat.eqb m_arity m_body map blk exec_block exec_stmt eval eval_cond get_field
+       o_lbp o_len lookup nth_error set_var option_map int2 fst snd].
+
+Ltac clo_split_eqb :=
+  match goal with
+  | |- context [Z.eqb ?a ?b] =>
+    let E := fresh "E" in
+    destruct (Z.eqb a b) eqn:E; [apply Z.eqb_eq in E | apply Z.eqb_neq in E]
+  end.
+
+Ltac clo_step lbp Hle :=
+  first
+  [ reflexivity
+  | progress clo_ev
+  | match goal with H : sorted_le _ = true |- _ => rewrite H end
+  | match goal with
+    | |- context [CloDSL.py_nth lbp (-1)] =>
+      rewrite (py_nth_last lbp) by (intros Hnil; apply (f_equal (@length Z)) in Hnil; cbn [length] in Hnil; lia)
+    | |- context [CloDSL.py_nth lbp ?k] => rewrite (py_nth_in lbp k) by lia
+    end
+  | clo_split_eqb
+  | solve [repeat first [lia | progress f_equal]]
+  | exfalso; lia ].
+
 Lemma gen_clo_call_ok src pos :
   run_def gen_clo_call [VInt pos] (clo_obj src)
   = ODone (clo_obj src) (Some (VPair (fst (clo src pos)) (snd (clo src pos)))).
 Proof.
   unfold run_def, gen_clo_call, clo_obj, clo. cbv zeta.
   set (lbp := line_breaks src).
-  cbn [length Nat.eqb m_arity m_body map blk exec_block exec_stmt eval get_field o_lbp o_len
-       lookup nth_error].
   assert (Hs : sorted_le lbp = true) by (apply increasing_sorted, line_breaks_sorted).
-  rewrite Hs. cbn [set_var eval_cond eval lookup nth_error].
   pose proof (bisect_le_length lbp pos) as Hle.
-  destruct (Z.of_nat (bisect_left lbp pos) =? 0) eqn:E0.
-  - cbn [exec_block exec_stmt eval lookup nth_error set_var fst snd]. reflexivity.
-  - cbn [exec_block exec_stmt eval eval_cond get_field o_lbp o_len lookup nth_error].
-    apply Z.eqb_neq in E0.
-    destruct (Z.of_nat (bisect_left lbp pos) =? Z.of_nat (length lbp)) eqn:E1.
-    + cbn [exec_block exec_stmt eval get_field o_lbp o_len lookup nth_error set_var option_map].
-      rewrite py_nth_last by (intros ->; cbn in Hle; lia).
-      cbn [option_map set_var exec_block exec_stmt eval int2 get_field o_lbp o_len lookup nth_error fst snd].
-      reflexivity.
-    + apply Z.eqb_neq in E1.
-      cbn [exec_block exec_stmt eval get_field o_lbp o_len lookup nth_error set_var option_map int2].
-      rewrite py_nth_in by lia.
-      cbn [option_map set_var exec_block exec_stmt eval int2 get_field o_lbp o_len lookup nth_error fst snd].
-      reflexivity.
+  repeat clo_step lbp Hle.
 Qed.
 
 Theorem run_clo_gen_ok src pos :
